@@ -113,6 +113,21 @@ def run(ck, all_tus):
     mon = dom_monitor()
     for term in (0x00, 0x2e):
         jobs.append(monitor_task(tu, (lambda tu: (lambda t: scan_machine(tu, t)))(tu), reps, term, mon, DOM_FACTS, final=mon[2], skip_empty=True)); meta.append((key, 'is_ascii_domain', tu, DOM_MEANING, r2))
+    if ck.tier == 'thorough':
+        # the scanners as compiled under the build options: their extra branches report codes too
+        import unitdb
+        r3 = ck.rule('M15.1[options]', 'thorough tier: the same monitors for is_6531_local built with RFC6531_FOLLOW_RFC5322 / RFC6531_FOLLOW_RFC20 (and both) and for is_ascii_domain built with LABELS_ALLOW_UNDERSCORE', 5)
+        for opts, vn in (({'RFC6531_FOLLOW_RFC20': 'ON'}, 'rfc20'), ({'RFC6531_FOLLOW_RFC5322': 'ON'}, 'rfc5322'), ({'RFC6531_FOLLOW_RFC20': 'ON', 'RFC6531_FOLLOW_RFC5322': 'ON'}, 'rfc20+rfc5322')):
+            vus = [u for u in unitdb.units(opts, vn) if u.rel == 'src/is_6531_local.c']
+            t6 = list(unitdb.load_asts(vus).values())[0]
+            symbols, _, _ = lp.alphabet([t6.fn('is_6531_local')], utf8=True)
+            jobs.append(monitor_task(t6, (lambda t6: (lambda term: machine_6531(t6, term)))(t6), symbols, 0x40, lp_monitor(rfc20='RFC6531_FOLLOW_RFC20' in opts), LP_FACTS))
+            meta.append((f'src/is_6531_local.c[{vn}]', 'is_6531_local', t6, LP_MEANING, r3))
+        vus = [u for u in unitdb.units({'LABELS_ALLOW_UNDERSCORE': 'ON'}, 'underscore') if u.rel == 'src/is_ascii_domain.c']
+        td = list(unitdb.load_asts(vus).values())[0]
+        rp, _, _ = domain_alphabet(td); monu = dom_monitor(underscore=True)
+        for term in (0x00, 0x2e):
+            jobs.append(monitor_task(td, (lambda td: (lambda t: scan_machine(td, t)))(td), rp, term, monu, DOM_FACTS, final=monu[2], skip_empty=True)); meta.append(('src/is_ascii_domain.c[underscore]', 'is_ascii_domain', td, DOM_MEANING, r3))
     res = forkmap.forkmap(jobs)
     produced_all = set()
     for (key, fn, tu, meaning, rule), (cfg, tr, found, produced) in zip(meta, res):
